@@ -47,7 +47,7 @@ def run_shard_resilient(engine, shard, nshards, seed, tier, outdir, extra, timeo
     return r, incidents + [{"rc": r["rc"], "case": None, "stderr": "too many restarts", "fatal": True}]
 
 
-def vh_stage(engine, quick=4, thorough=16, extra=(), timeout_q=1500, timeout_t=7200, name=None, death_is_violation=True, confirm_hangs=False, case_limit_s=None):
+def vh_stage(engine, quick=4, thorough=16, extra=(), timeout_q=1500, timeout_t=7200, name=None, death_is_violation=True, confirm_hangs=False, case_limit_s=None, benign_case=None):
     def stage(ctx):
         from concurrent.futures import ThreadPoolExecutor
 
@@ -74,6 +74,9 @@ def vh_stage(engine, quick=4, thorough=16, extra=(), timeout_q=1500, timeout_t=7
 
         def classify(inc):
             env = dict(D.ENV)
+            if benign_case is not None and benign_case(inc["case"]):
+                # a stop / death in a step that is not the subject of this property (e.g. compiling the unchanged twin)
+                return ("incon", {"kind": "stopped_outside_the_judged_step", "case": inc["case"], "rc": inc["rc"]})
             if inc["rc"] == 86:
                 if confirm_hangs and inc.get("confirm"):
                     # a wall-clock stop is never a verdict by itself: re-run the one case alone with a larger budget
@@ -336,6 +339,19 @@ register(
     "Distinct non-trivial = distinct program with >= 1 reported parameter whose pairs all agreed",
     min_nontrivial=100,
     assumptions=["a case the check's evaluator does not finish within 30 s is inconclusive here (non-termination is C14's subject)", "parameters below or naming an @ capture are not judged: no pair of inputs differs in such a parameter alone"],
+)
+
+
+register(
+    "C10",
+    [vh_stage("c10", 16, 16, confirm_hangs=True, case_limit_s=20, benign_case=lambda c: c.endswith("/twin"))],
+    "well-scoped generated programs (as C01, every modern dialect, command line build, -O on every second case) whose unchanged twin compiles, each with exactly one injected defect: "
+    "(a, strict dialects: strict-cl21, cl23, cl23.1, cl24) a fresh unbound name at a random variable position of the main expression (2 positions), of every reachable function and inline function body, as an extra lambda capture, as a &rest tail; "
+    "(b) a second defun / defun-inline with the name of an existing function, inserted at a random place; (c) a cycle of 1..4 new inline functions reachable from the main expression (the back call in an argument, a branch, a let binding, a list, an else branch) and a self call added to an existing reachable inline function; "
+    "(d) an assign / assign-inline / assign-lambda form with a dependency cycle of length 1..3 or with a repeated name (also through a destructuring pattern). Oracle: compilation returns (watchdog 20 s per case; a stop is confirmed by an isolated re-run before it counts as non-termination; a dead process is a violation) "
+    "with an error, never with code, and the message contains an identifier of the defect (or, for assign defects, speaks of the binding). Distinct non-trivial = distinct defective program rejected with an error naming the defect",
+    min_nontrivial=300,
+    assumptions=["positions: the recorded set unbound_positions lists the syntactic contexts that were hit", "strict-cl21 is built without -O (its optimise flag is the subject of a listed C02 finding)"],
 )
 
 
